@@ -63,7 +63,12 @@ func (w *World) beginWrite(t *simcore.Task, arg []int) *WTxn {
 	t.Acquired = nil
 	w.S.Logf("T%d WriteTxn%v invoke by %s", wt.id, arg, t.Name)
 	fl := w.floorNow()
-	if !w.guard("C05", "WriteTxn", func() { wt.txn = w.db.WriteTxn(metas...) }) {
+	db := w.db
+	if w.C.Choose(3) == 0 {
+		db = w.db.NewHandle(t.Name) // a named handle shares the database state
+		w.probe("writetxn-through-handle")
+	}
+	if !w.guard("C05", "WriteTxn", func() { wt.txn = db.WriteTxn(metas...) }) {
 		return nil
 	}
 	w.allTxns = append(w.allTxns, wt)
@@ -578,6 +583,21 @@ func (w *World) writeOp(t *simcore.Task, wt *WTxn) bool {
 		var refAns []answer
 		switch op {
 		case OpInsert:
+			if c.Choose(5) == 0 {
+				// the untyped access path used by scripting and the HTTP API
+				what = "AnyTable." + what
+				w.probe("anytable-insert")
+				if !w.guard("C03", what, func() {
+					var ao any
+					ao, gotHad, gotErr = statedb.AnyTable{Meta: tc.T}.Insert(wt.txn, o)
+					if ao != nil {
+						gotOld, _ = ao.(*Obj)
+					}
+				}) {
+					return false
+				}
+				break
+			}
 			if !w.guard("C03", what, func() { gotOld, gotHad, gotErr = tc.T.Insert(wt.txn, o) }) {
 				return false
 			}
@@ -700,7 +720,19 @@ func (w *World) writeOp(t *simcore.Task, wt *WTxn) bool {
 					return false
 				}
 			}
-			if !w.guard("C03", what, func() { gotOld, gotHad, gotErr = tc.T.Delete(wt.txn, arg) }) {
+			if c.Choose(5) == 0 {
+				what = "AnyTable." + what
+				w.probe("anytable-delete")
+				if !w.guard("C03", what, func() {
+					var ao any
+					ao, gotHad, gotErr = statedb.AnyTable{Meta: tc.T}.Delete(wt.txn, arg)
+					if ao != nil {
+						gotOld, _ = ao.(*Obj)
+					}
+				}) {
+					return false
+				}
+			} else if !w.guard("C03", what, func() { gotOld, gotHad, gotErr = tc.T.Delete(wt.txn, arg) }) {
 				return false
 			}
 		} else {
